@@ -2247,6 +2247,9 @@ impl<'store> AnnotationStore {
                     for resource in remove_resources {
                         self.remove(resource)?;
                     }
+                    for dataset in remove_datasets {
+                        self.remove(dataset)?;
+                    }
                     for annotation in remove_annotations {
                         self.remove(annotation)?;
                     }
